@@ -158,7 +158,10 @@ def main(ctx):
     from props import c01
     dcases = []
     for fam in ("tsonis", "hilbert", "spearman", "partialcorr", "mutualinfo", "havlin", "ctsonis"):
-        for k, h in enumerate(c01.gen_histories(ctx, fam, 2 if ctx.tier == "quick" else 3)):
+        hs = c01.gen_histories(ctx, fam, 2 if ctx.tier == "quick" else 3)
+        if ctx.tier == "quick":
+            hs = hs + c01.aba_histories(ctx, fam, 12)
+        for k, h in enumerate(hs):
             dcases.append({"case": "d_%s_%d" % (fam, k), "family": fam, "hist": [list(m) for m in h]})
     drecs = ctx.run_cases("props.c09.run_data_case", dcases)
     ctx.validate("Val_C09d", "Val_C09d", drecs, stage="Val_C09d", nontrivial=lambda r: len(r["hist"]) >= 1)
